@@ -165,7 +165,7 @@ func newOperator(expr parser.Expr, storage *engstore.SelectorPool, opts *query.O
 					operators = append(operators, operator)
 				}
 
-				return exchange.NewCoalesce(model.NewVectorPool(stepsBatch), operators...), nil
+				return exchange.NewUniqueCoalesce(model.NewVectorPool(stepsBatch), operators...), nil
 			}
 		}
 
